@@ -520,6 +520,64 @@ where
     }
 }
 
+/// C06 probe: a non-positive resolution fraction. The setters store 0 for it; one motion check then
+/// wants ~2^64 interpolation steps. The query cap turns that into an observable outcome.
+fn resolution_zero_probe(ctx: &mut Ctx) {
+    for kind in [Kind::Rrt, Kind::Star, Kind::Conn, Kind::Prm] {
+        for frac in [0.0, -1.0] {
+            ctx.run += 1;
+            let run = ctx.run;
+            let desc = json!({"space": "rv2-res0", "world": "free", "planner": kind.name(), "fraction": frac, "probe": "resolution-fraction"});
+            if ctx.list {
+                println!("{}", json!({"run": run, "desc": desc}));
+                continue;
+            }
+            if let Some(o) = ctx.only {
+                if o != run {
+                    continue;
+                }
+            }
+            if ctx.skip.contains(&run) {
+                continue;
+            }
+            if let Some(pf) = &ctx.progress {
+                std::fs::write(pf, format!("{}", run)).ok();
+            }
+            let mut space = RealVectorStateSpace::new(2, Some(vec![(0.0, 10.0), (0.0, 10.0)])).unwrap();
+            space.set_longest_valid_segment_fraction(frac);
+            let params = Params { maxd: 1.0, bias: 0.05, radius: 2.0, build_ticks: 5, seed: Some(7) };
+            let problem = Problem {
+                starts: vec![rv(&[1.0, 1.0])],
+                goal: Rc::new(BallGoal { space: space.clone(), center: rv(&[9.0, 9.0]), r: 0.5 }) as Rc<dyn HGoal<RealVectorState>>,
+                checker: Rc::new(|_s: &RealVectorState| true),
+            };
+            let calls = if kind == Kind::Prm { vec![Call::Setup(0), Call::Construct, Call::Solve(5)] } else { vec![Call::Setup(0), Call::Solve(5)] };
+            let cfg = RunCfg { query_cap: 50_000, ..RunCfg::default() };
+            let recs = run_history(kind, &params, space, &[problem], &calls, &cfg);
+            let mut worst = "ok".to_string();
+            let mut queries = 0usize;
+            for r in &recs {
+                queries += r.raw.iter().filter(|e| matches!(e, Raw::IsValid(..))).count();
+                if let Outcome::Panic { msg, .. } = &r.outcome {
+                    worst = if msg.contains("QUERY_CAP") { "querycap".into() } else if msg.contains("SAMPLE_CAP") { "abort".into() } else { "panic".into() };
+                }
+            }
+            let shard = ctx.nruns % ctx.outs.len();
+            let evs = vec![
+                json!({"ev": "reset", "run": run, "planner": kind.name(), "mode": "real", "space": "rv2-res0", "lvs": 1, "maxd": 0, "rad": 0, "tol": 0,
+                       "bias": "p", "seeded": true, "desc": desc}),
+                json!({"ev": "probe", "name": "resolution-fraction", "kind": worst, "queries": queries}),
+            ];
+            for ev in &evs {
+                writeln!(ctx.outs[shard], "{}", ev).unwrap();
+                ctx.nevents += 1;
+            }
+            ctx.nruns += 1;
+            ctx.index.push(json!({"run": run, "desc": desc}));
+        }
+    }
+}
+
 fn main() {
     let args: Vec<String> = std::env::args().collect();
     let mut outp = String::from("/dev/null");
@@ -580,6 +638,7 @@ fn main() {
     exec_sets(&mut ctx, cmp_sets(&tier));
     exec_sets(&mut ctx, se2_sets(&tier));
     exec_sets(&mut ctx, se3_sets(&tier));
+    resolution_zero_probe(&mut ctx);
     for o in ctx.outs.iter_mut() {
         o.flush().unwrap();
     }
